@@ -12,6 +12,8 @@
  * usage:
  *   drv_calstore rand  SEED FROM TO LEN     random histories
  *   drv_calstore exh   DEPTH FROM TO        prefix x alphabet^DEPTH
+ *   drv_calstore bulk  SEED FROM TO         many handles in one vnacal_new_t,
+ *                                           unknowns solved by two of them
  *   drv_calstore count DEPTH
  * env: VT_TRACE=<path> (default stdout)
  */
@@ -1850,6 +1852,181 @@ static long exh_count(int depth)
     return n;
 }
 
+/* ------------------------------------------------------- bulk histories */
+
+/*
+ * Many parameters in one vnacal_t, one vnacal_new_t using 10-20 distinct
+ * handles (its parameter table grows several times), deletion of held
+ * handles and their re-use in the same vnacal_new_t; then the same unknown
+ * handles solved again by a second vnacal_new_t on a different frequency
+ * grid (equal or different number of points) and by the first one once
+ * more: the value of a solved unknown is that of the latest solve.
+ */
+static void bulk_case(vt_rng_t *rng)
+{
+    vinfo_t *v = &VC[0];
+    int nh = 20 + vt_below(rng, 21);
+    int live[MAX_H], nlive = 0;
+    int used[24], nuse = 0, want;
+    int unk[4], nunk = 0;
+    int two = vt_below(rng, 2);
+    int type = vt_below(rng, 2) ? VNACAL_T8 : VNACAL_E12;
+    int ga = vt_below(rng, N_CAL_GRIDS), gb;
+    ninfo_t *na, *nb;
+
+    op_create(0);
+    for (int i = 0; i < nh; ++i) {
+	int r = vt_below(rng, 10);
+
+	if (r < 6 || v->lasth < 0) {
+	    op_make_scalar(v, G_SCALAR0 + vt_below(rng, N_SCALARS));
+	} else if (r < 8) {
+	    int g = vt_below(rng, N_VEC_GRIDS);
+
+	    op_make_vector(v, vec_grids[g], vec_grid_n[g], G_VECTOR0);
+	} else if (nunk < 3) {
+	    /* initial guess: a predefined or an earlier scalar parameter */
+	    int guess = vt_below(rng, 3);
+
+	    for (int h = v->maxh; h >= 3; --h) {
+		if (v->h[h].kind == K_SCALAR && vt_below(rng, 2)) {
+		    guess = h;
+		    break;
+		}
+	    }
+	    op_make_unknown(v, guess);
+	    if (v->lasth >= 3 && v->h[v->lasth].kind == K_UNKNOWN)
+		unk[nunk++] = v->lasth;
+	} else {
+	    op_make_scalar(v, G_SCALAR0 + vt_below(rng, N_SCALARS));
+	}
+    }
+    op_new_alloc(v, type, 1 + two, 1 + two, 2, cal_grids[ga]);
+    if ((na = last_new(v)) == NULL)
+	return;
+    op_set_frequency_vector(v, na, 0);
+    while (!useful_done(na, na->id & 1)) {
+	if (add_useful(v, na, na->id & 1, 0) != 0)
+	    break;
+    }
+    for (int h = 3; h <= v->maxh && h < MAX_H; ++h) {
+	if (v->h[h].kind != K_NONE && !v->h[h].deleted && h_fits(v, na, h))
+	    live[nlive++] = h;
+    }
+    want = 10 + vt_below(rng, 11);
+    if (want > nlive)
+	want = nlive;
+    /* the unknowns, then (half of the cases) pairs of handles 16 apart,
+     * then random distinct handles */
+    for (int i = 0; i < nunk && nuse < want; ++i)
+	used[nuse++] = unk[i];
+    if (vt_below(rng, 2) == 0) {
+	for (int i = 0; i < nlive && nuse + 1 < want && nuse < 8; ++i) {
+	    int h = live[i], dup = 0;
+
+	    if (h + 16 >= MAX_H || v->h[h + 16].kind == K_NONE ||
+		    !h_fits(v, na, h + 16))
+		continue;
+	    for (int k = 0; k < nuse; ++k)
+		dup |= used[k] == h || used[k] == h + 16;
+	    if (dup)
+		continue;
+	    used[nuse++] = h;
+	    used[nuse++] = h + 16;
+	}
+    }
+    for (int guard = 0; nuse < want && guard < 1000; ++guard) {
+	int h = live[vt_below(rng, nlive)], dup = 0;
+
+	for (int k = 0; k < nuse; ++k)
+	    dup |= used[k] == h;
+	if (!dup)
+	    used[nuse++] = h;
+    }
+    for (int i = 0; i < nuse; ++i) {
+	int ports[2] = { 1 + vt_below(rng, na->rows), 2 };
+	int hs[2] = { used[i], used[(i + 1) % nuse] };
+
+	if (two && vt_below(rng, 4) == 0 && v->h[hs[1]].kind != K_UNKNOWN) {
+	    ports[0] = 1;
+	    (void)op_add_std(v, na, SH_REFL2, ports, hs, 0);
+	} else {
+	    (void)op_add_std(v, na, SH_REFL1, ports, hs, vt_below(rng, 6) == 0);
+	}
+    }
+    /* delete held handles, keep using them in the same vnacal_new_t */
+    for (int i = 0; i < nuse; ++i) {
+	int h = used[i];
+	int ports[2] = { 1 + vt_below(rng, na->rows), 2 };
+	int hs[1] = { h };
+	int isunk = v->h[h].kind == K_UNKNOWN;
+
+	if (vt_below(rng, 100) < (isunk ? 15 : 60))
+	    op_delete_parameter(v, h);
+	if (vt_below(rng, 100) < 75)
+	    (void)op_add_std(v, na, SH_REFL1, ports, hs, 0);
+	if (vt_below(rng, 100) < 20)
+	    op_get_parameter_value(v, h, na->grid[vt_below(rng, 2)]);
+    }
+    op_solve(v, na);
+    for (int i = 0; i < nunk; ++i)
+	op_get_parameter_value(v, unk[i], na->grid[vt_below(rng, 2)]);
+    op_add_calibration(v, na, vt_below(rng, N_NAMES));
+
+    /* a second vnacal_new_t solves the same unknowns on another grid */
+    do {
+	gb = vt_below(rng, N_CAL_GRIDS);
+    } while (gb == ga);
+    op_new_alloc(v, vt_below(rng, 2) ? VNACAL_T8 : VNACAL_E12, 1 + two,
+	    1 + two, vt_below(rng, 3) ? 2 : 1, cal_grids[gb]);
+    nb = last_new(v);
+    if (nb != NULL && nb != na) {
+	op_set_frequency_vector(v, nb, 0);
+	while (!useful_done(nb, nb->id & 1)) {
+	    if (add_useful(v, nb, nb->id & 1, 0) != 0)
+		break;
+	}
+	for (int i = 0; i < nunk; ++i) {
+	    int ports[2] = { 1 + vt_below(rng, nb->rows), 2 };
+	    int hs[1] = { unk[i] };
+
+	    if (!v->h[unk[i]].deleted)
+		(void)op_add_std(v, nb, SH_REFL1, ports, hs, 0);
+	}
+	op_solve(v, nb);
+	for (int i = 0; i < nunk; ++i) {
+	    op_get_parameter_value(v, unk[i], nb->grid[vt_below(rng, nb->nf)]);
+	    op_get_parameter_value(v, unk[i], na->grid[vt_below(rng, 2)]);
+	}
+	op_add_calibration(v, nb, vt_below(rng, N_NAMES));
+	if (vt_below(rng, 2) == 0) {
+	    op_solve(v, na);		/* and back: the latest solve wins */
+	    for (int i = 0; i < nunk; ++i)
+		op_get_parameter_value(v, unk[i],
+			na->grid[vt_below(rng, 2)]);
+	}
+    }
+    for (int i = 0; i < 15; ++i) {
+	int variant = 0;
+
+	if (VC[0].vcp == NULL)
+	    break;
+	random_step(rng, &variant);
+    }
+}
+
+static void seed_case(vt_rng_t *rng, uint64_t seed, long c, uint64_t salt)
+{
+    /* vt_seed once mapped consecutive seeds to one splitmix orbit shifted
+     * by a step; mixing the case number first is harmless either way */
+    uint64_t z = seed * 0xD1342543DE82EF95ull +
+	(uint64_t)c * 0xAF251AF3B0F025B5ull + 0x2545F4914F6CDD1Dull + salt;
+
+    z = (z ^ (z >> 32)) * 0xBF58476D1CE4E5B9ull;
+    z = (z ^ (z >> 29)) * 0x94D049BB133111EBull;
+    vt_seed(rng, z ^ (z >> 32));
+}
+
 /* ------------------------------------------------------------------ main */
 
 int main(int argc, char **argv)
@@ -1881,6 +2058,23 @@ int main(int argc, char **argv)
 		freed = exh_call(&VC[0], (int)(x % N_ALPHA));
 		x /= N_ALPHA;
 	    }
+	    finish_case();
+	}
+	return 0;
+    }
+    if (argc >= 5 && strcmp(argv[1], "bulk") == 0) {
+	uint64_t seed = strtoull(argv[2], NULL, 10);
+	long from = atol(argv[3]), to = atol(argv[4]);
+
+	for (long c = from; c < to; ++c) {
+	    vt_rng_t rng;
+
+	    seed_case(&rng, seed, c, 0x62756c6bull);
+	    vc_reset();
+	    vt_put("{\"e\":\"Reset\",\"case\":\"bulk:%llu:%ld\"}",
+		    (unsigned long long)seed, c);
+	    vt_end_line();
+	    bulk_case(&rng);
 	    finish_case();
 	}
 	return 0;
@@ -1924,7 +2118,8 @@ int main(int argc, char **argv)
 	}
 	return 0;
     }
-    fprintf(stderr, "usage: %s rand SEED FROM TO LEN | exh DEPTH FROM TO | "
+    fprintf(stderr, "usage: %s rand SEED FROM TO LEN | bulk SEED FROM TO | "
+	    "exh DEPTH FROM TO | "
 	    "count DEPTH\n", argv[0]);
     return 3;
 }
